@@ -72,9 +72,16 @@ def _update_progset(asd_vals, mapping, progset):
             assert len(progset.programs[target[1]].capacity_constraint.vals) == 1
             progset.programs[target[1]].capacity_constraint.vals[0] = x
         elif target[0] == "baseline":
-            progset.covouts[(target[1], target[2])].baseline = x
+            covout = progset.covouts[(target[1], target[2])]
+            covout._interactions = {k: v + covout.baseline - x for k, v in covout._interactions.items()}  # Interaction outcomes are stored relative to the baseline
+            covout.baseline = x
         elif target[0] == "outcome":
             progset.covouts[(target[1], target[2])].progs[target[3]] = x
+
+    # The Covout objects cache the outcomes for all combinations of programs, so the caches need to be
+    # refreshed after changing the baseline or outcome values (otherwise the previous values continue to be used)
+    for covout in progset.covouts.values():
+        covout.update_outcomes()
 
 
 def _prepare_bounds(progset, unit_cost_bounds, baseline_bounds, capacity_bounds, outcome_bounds):
